@@ -119,26 +119,46 @@ def specSign (C : Codec (Sig κ)) (key : κ) (typ value relayState : Str) (sign 
         decide (sg.sig = Sig.signed key dig octets) &&
         decide (params.get kSignature = some (C.b64e sg.sig))
 
-/-- Verifier side; `pk` is the key the caller verifies under.
-    * "verified" only for an authentic message (in one of the directions present);
+/-- The RSA public key a call of the verifier asks to verify under, if any: the key of the
+    certificate when a (non-empty) certificate is given — none if that certificate holds no RSA key or
+    is not a certificate —; without certificate the `sigkey` argument; without both the verifier's own
+    key (calls without any key material are the caller's business, not the property's). -/
+def verificationKey (own : Option κ) (cert : Option (Cert κ)) (sigkey : Option (VKey κ)) : Option (Pub κ) :=
+  match cert, sigkey with
+  | some (.holds (.rsa pk)), _ => some pk
+  | some _, _ => none
+  | none, some (.rsa pk) => some pk
+  | none, some .other => none
+  | none, none => own.map pub
+
+/-- Verifier side; `pk` is the key the caller verifies under (`verificationKey`), `none` = there is
+    no such key.
+    * "verified" only for a message authentic under `pk` (in one of the directions present); never
+      without a key;
     * an authentic message is verified (when both SAMLRequest and SAMLResponse are present the
       property does not say which one counts: unconstrained). -/
-def specVerify (C : Codec (Sig κ)) (msg : Dict) (pk : Pub κ) (out : VOut) : Bool :=
-  let a := authentic C msg pk kSAMLRequest || authentic C msg pk kSAMLResponse
+def specVerify (C : Codec (Sig κ)) (msg : Dict) (pk : Option (Pub κ)) (out : VOut) : Bool :=
+  let a := match pk with
+    | some pk => authentic C msg pk kSAMLRequest || authentic C msg pk kSAMLResponse
+    | none => false
   match out with
   | .verified => a
   | _ => if msg.has kSAMLRequest && msg.has kSAMLResponse then true else !a
 
-/-- Receiver side (`parse_authn_request` over HTTP-Redirect).  When the receiver insists on
-    signed requests: accepted only if SigAlg and Signature are present and the message is
-    authentic under one of the sender's certificates; an authentic, otherwise acceptable request
-    is accepted.  When it does not insist, the property says nothing. -/
-def specServer (C : Codec (Sig κ)) (must redirect wellformed : Bool) (certs : List (Pub κ)) (origdoc : Str)
+/-- Receiver side (`parse_authn_request` over HTTP-Redirect); `certs` = the keys of the sender's
+    signing certificates in metadata.  When the receiver insists on signed requests: accepted only if
+    SigAlg and Signature are present and the message is authentic under the RSA key of one of those
+    certificates; an authentic, otherwise acceptable request is accepted.  When it does not insist,
+    the property says nothing. -/
+def specServer (C : Codec (Sig κ)) (must redirect wellformed : Bool) (certs : List (VKey κ)) (origdoc : Str)
     (relayState sigalg signature : Option Str) (accepted : Bool) : Bool :=
   if !(must && redirect) then true
   else
     let auth := match sigalg, signature with
-      | some a, some s => certs.any fun c => authentic C (loadsMsg origdoc a s relayState) c kSAMLRequest
+      | some a, some s => certs.any fun c =>
+          match c with
+          | .rsa pk => authentic C (loadsMsg origdoc a s relayState) pk kSAMLRequest
+          | .other => false
       | _, _ => false
     if accepted then auth else !(auth && wellformed)
 
